@@ -357,6 +357,62 @@ vh::Outcome run_tracked(const vh::Case& c) {
     if (c.cfg.size() > 2 && c.cfg[2] % 2 == 1) { vh::Outcome o = run_rcu<Tracked, vrt::QAlloc<Tracked>, vstd::timed_mutex>(c, P); o.labels.push_back("M=timed_mutex"); return o; }
     return run_rcu<Tracked>(c, P);
 }
+// ---- C12r: rcu_list with a recursive mutex (documented as a useful mutex type) and an element whose constructor appends to the same
+// list while the outer emplace holds the write lock.  Sequential programs, reference std::list.
+struct NestList;
+struct NestArg { void* list; int v; int nested; };
+struct NestElem {
+    Tracked t;
+    explicit NestElem(uint64_t v) : t(v) {}
+    explicit NestElem(const NestArg& a);
+    uint64_t read() const { return t.read(); }
+};
+using RList = lg::rcu_list<NestElem, vstd::recursive_mutex, vrt::QAlloc<NestElem>>;
+NestElem::NestElem(const NestArg& a) : t((uint64_t)a.v) {
+    RList* l = static_cast<RList*>(a.list);
+    for (int k = 0; k < a.nested; ++k) { if (k & 1) l->emplace_front((uint64_t)(a.v * 10 + k + 1)); else l->emplace_back((uint64_t)(a.v * 10 + k + 1)); }
+}
+vh::Outcome run_c12r(const vh::Case& c) {
+    reset_case_globals();
+    vh::Outcome out;
+    bool nested_any = false;
+    out.res = vrt::run(c.sched, [&] {
+        lg::rcu_guarded<RList> rl;
+        std::list<int> ref;
+        int next = 1;
+        const auto& ops = c.fibers.empty() ? std::vector<vh::Op>() : c.fibers[0];
+        for (auto& op : ops) {
+            int v = next++;
+            auto h = rl.lock_write();
+            RList* raw = &*h;
+            switch (op.code % 6) {
+                case 0: h->push_back(NestElem((uint64_t)v)); ref.push_back(v); break;
+                case 1: h->push_front(NestElem((uint64_t)v)); ref.push_front(v); break;
+                case 2: case 3: {      // emplace_back whose element constructor appends `nested` more elements first
+                    int n = op.a % 3; if (n) nested_any = true;
+                    for (int k = 0; k < n; ++k) { if (k & 1) ref.push_front(v * 10 + k + 1); else ref.push_back(v * 10 + k + 1); }
+                    h->emplace_back(NestArg{raw, v, n}); ref.push_back(v); break;
+                }
+                case 4: {
+                    int n = op.a % 3; if (n) nested_any = true;
+                    for (int k = 0; k < n; ++k) { if (k & 1) ref.push_front(v * 10 + k + 1); else ref.push_back(v * 10 + k + 1); }
+                    h->emplace_front(NestArg{raw, v, n}); ref.push_front(v); break;
+                }
+                default: { auto it = h->begin(); int k = op.a % 4; auto rit = ref.begin(); while (k-- > 0 && it != h->end()) { ++it; ++rit; } if (it != h->end()) { h->erase(it); ref.erase(rit); } break; }
+            }
+            std::vector<int> got; for (auto it = h->begin(); it != h->end(); ++it) got.push_back((int)it->read());
+            if (got != std::vector<int>(ref.begin(), ref.end())) vrt::fail("model-mismatch", "list contents differ from the reference list after an operation with a re-entrant element constructor under a recursive mutex");
+        }
+    });
+    if (nested_any) out.labels.push_back("nested-append-from-constructor");
+    out.nontrivial = nested_any;
+    return out;
+}
+vh::GenSpec spec12r(bool th) { vh::GenSpec g; g.sequential = true; g.nfibers = 1; g.max_ops = th ? 16 : 10; g.ncodes = 6; g.amax = 6; g.bmax = 2; g.aux_len = 1; return g; }
+vh::Register r12r("C12r", spec12r(false), spec12r(true), run_c12r,
+                  "sequential programs on rcu_list<E, recursive_mutex> where E's constructor re-enters emplace_front/emplace_back of the same list while the outer emplace holds the write lock; "
+                  "contents compared with a reference list after every operation; non-trivial = at least one nested append");
+
 vh::Outcome dispatch13(const vh::Case& c) {
     int t = c.cfg.empty() ? 0 : c.cfg[0] % 4;
     if (t == 3) { vh::Outcome o = run_rcu<Tracked, vrt::QAllocS<Tracked>>(c, P_C13); o.labels.push_back("stateful-allocator"); return o; }
